@@ -5,7 +5,7 @@ import dataclasses
 import ipaddress
 
 PROPERTY = "C19"
-BUDGET_S = {"quick": 300, "thorough": 900}
+BUDGET_S = {"quick": 600, "thorough": 900}
 STUBS = ["eventgroup set of a Service: equality-scan frozenset subclass (ScanSet) so that a symbolic eventgroup id is compared, not hashed"]
 ASSUMPTIONS = [
     "all four fields of both sides range over their full wire widths (16/16/8/32 bit) as z3 integers - stronger than the three-valued domain of the quantifier",
